@@ -85,16 +85,31 @@ const (
 )
 
 // saveMapGob saves a map to a file using gob encoding.
-func saveMapGob[K comparable, V any](filePath string, data map[K]V) error {
-	file, err := os.Create(filePath)
+func saveMapGob[K comparable, V any](filePath string, data map[K]V) (err error) {
+	// The file is written under a temporary name and renamed into place: if the process dies while
+	// saving, the previous file (or no file) is left, never a truncated one. A truncated file makes
+	// loading fail, and a node that cannot load its caches does not start.
+	tmpPath := filePath + ".tmp"
+	file, err := os.Create(tmpPath)
 	if err != nil {
-		return fmt.Errorf("failed to create file %s: %w", filePath, err)
+		return fmt.Errorf("failed to create file %s: %w", tmpPath, err)
 	}
-	defer file.Close()
+	defer func() {
+		if err != nil {
+			_ = os.Remove(tmpPath)
+		}
+	}()
 
 	encoder := gob.NewEncoder(file)
 	if err := encoder.Encode(data); err != nil {
+		_ = file.Close()
 		return fmt.Errorf("failed to encode to file %s: %w", filePath, err)
+	}
+	if err := file.Close(); err != nil {
+		return fmt.Errorf("failed to close file %s: %w", tmpPath, err)
+	}
+	if err := os.Rename(tmpPath, filePath); err != nil {
+		return fmt.Errorf("failed to move %s into place: %w", tmpPath, err)
 	}
 	return nil
 }
